@@ -333,7 +333,8 @@ class Spec(pipeprops.PropSpec):
                 "C05_shacl_one_path, C05_shacl_node_shapes_iff, C05_shacl_one_node_shape_per_shape, C05_shacl_any_detect, "
                 "C05_shacl_graph_total, C05_shacl_wellformed, C05_run_refs_closed, C05_shacl_run (Props/C05.v)")
     projection = staticmethod(pipeprops.proj_text)
-    projection_name = "ShExC text, byte for byte (after the ratio shim)"
+    projection_name = ("ShExC text, byte for byte (after the ratio shim); SHACL runs: the parsed document is isomorphic "
+                       "to the abstract graph of Model.ShaclDoc (entries shacl_doc / shacl_doc_shapes)")
     rule = ("C01's graphs (general and schema-consistent, one or two namespaces) x all 2^6 switch assignments "
             "round-robin x thresholds on every k/n boundary x targets/all-classes x caps x remove_empty on/off x OR "
             "on/off x user dictionaries colliding with 0-3 of the default shape prefixes ('', weso-s, shapes, w-shapes) "
